@@ -272,6 +272,9 @@ class _OutTarget:
         self.kind, self.out, self.data, self.thread = kind, out, None, None
         if kind == "fifo":
             os.mkfifo(out)
+            # our own read-write descriptor keeps the pipe open: neither side blocks in open(), and closing it after the run
+            # gives the reader its end-of-file even when nothing was ever written
+            self.keep = os.open(out, os.O_RDWR)
             self.thread = threading.Thread(target=self._read, daemon=True)
             self.thread.start()
         elif kind == "existing":
@@ -289,13 +292,15 @@ class _OutTarget:
     def collect(self):
         """-> raw text written to the target, or None when nothing was written."""
         if self.kind == "fifo":
-            # release a reader whose pipe was never opened for writing
-            with contextlib.suppress(OSError):
-                fd = os.open(self.out, os.O_WRONLY | os.O_NONBLOCK)
-                os.close(fd)
+            os.close(self.keep)
             self.thread.join(timeout=20)
+            replaced = None
+            if self.out.is_file():  # the pipe was replaced by a regular file (write-then-rename): that file is the report
+                replaced = self.out.read_bytes().decode("utf-8", "replace")
             with contextlib.suppress(OSError):
                 os.unlink(self.out)
+            if replaced:
+                return replaced
             return self.data.decode("utf-8", "replace") if self.data else None
         raw = None
         if self.out.is_file():
